@@ -257,27 +257,63 @@ def pagetree_constants():
         raise NotFound(f"exactly one index-file constant in pagetree.py, found {sorted(idx)}")
     skips = {}
     suffix = None
-    for n in ast.walk(gpt):
+
+    def helper_test(call):
+        """`f(name)` for a module-level `def f(x): return <expr>`: that expression with `x` renamed to `name`"""
+        if not (isinstance(call, ast.Call) and isinstance(call.func, ast.Name) and len(call.args) == 1 and not call.keywords
+                and isinstance(call.args[0], ast.Name) and call.args[0].id == "name"):
+            return None
+        for f in tree.body:
+            if isinstance(f, ast.FunctionDef) and f.name == call.func.id and len(f.args.args) == 1:
+                body = [b for b in f.body if not (isinstance(b, ast.Expr) and isinstance(b.value, ast.Constant))]
+                if len(body) == 1 and isinstance(body[0], ast.Return) and body[0].value is not None:
+                    param = f.args.args[0].arg
+                    expr = ast.parse(ast.unparse(body[0].value), mode="eval").body
+                    for x in ast.walk(expr):
+                        if isinstance(x, ast.Name) and x.id == param:
+                            x.id = "name"
+                    return expr
+        return None
+
+    def skip_compare(n):
+        """(k, char) of `name[k] == <char>`, else None"""
         if isinstance(n, ast.Compare) and len(n.ops) == 1 and isinstance(n.ops[0], ast.Eq):
             l, r = n.left, n.comparators[0]
             if (isinstance(l, ast.Subscript) and isinstance(l.value, ast.Name) and l.value.id == "name"
                     and isinstance(r, ast.Constant) and isinstance(r.value, str) and len(r.value) == 1):
-                s = l.slice
-                if isinstance(s, ast.UnaryOp) and isinstance(s.op, ast.USub) and isinstance(s.operand, ast.Constant):
-                    k = -s.operand.value
-                elif isinstance(s, ast.Constant):
-                    k = s.value
-                else:
-                    continue
-                skips.setdefault(k, []).append(r.value)
-            if (isinstance(l, ast.Attribute) and l.attr == "suffix" and isinstance(r, ast.Constant)):
-                suffix = r.value
-    # each skip test must guard a `continue`
+                sl = l.slice
+                if isinstance(sl, ast.UnaryOp) and isinstance(sl.op, ast.USub) and isinstance(sl.operand, ast.Constant):
+                    return (-sl.operand.value, r.value)
+                if isinstance(sl, ast.Constant):
+                    return (sl.value, r.value)
+        return None
+
+    def disjuncts(t):
+        """the `name[k] == c` tests of a disjunction (a single test, `a or b`, or a helper returning one), in order"""
+        t = helper_test(t) or t
+        parts = t.values if isinstance(t, ast.BoolOp) and isinstance(t.op, ast.Or) else [t]
+        got = [skip_compare(x) for x in parts]
+        return got if all(g is not None for g in got) else None
+
+    # each skip test must guard a `continue`: `if name[k] == c: continue`, any `or` of such tests, possibly in a helper
     n_cont = 0
     for n in ast.walk(gpt):
-        if isinstance(n, ast.If) and isinstance(n.test, ast.Compare) and isinstance(n.test.left, ast.Subscript) \
-                and len(n.body) == 1 and isinstance(n.body[0], ast.Continue):
-            n_cont += 1
+        if isinstance(n, ast.Compare) and len(n.ops) == 1 and isinstance(n.ops[0], ast.Eq):
+            l, r = n.left, n.comparators[0]
+            if (isinstance(l, ast.Attribute) and l.attr == "suffix" and isinstance(r, ast.Constant)):
+                suffix = r.value
+        if isinstance(n, ast.If) and len(n.body) == 1 and isinstance(n.body[0], ast.Continue) and not n.orelse:
+            ds = disjuncts(n.test)
+            if ds:
+                for k, c in ds:
+                    skips.setdefault(k, []).append(c)
+                    n_cont += 1
+    # a test on `name[k]` anywhere else in the function is something the model does not have
+    stray = sum(1 for n in ast.walk(gpt) if skip_compare(n) is not None)
+    helper_hits = sum(len(disjuncts(n.test) or []) for n in ast.walk(gpt)
+                      if isinstance(n, ast.If) and helper_test(n.test) is not None)
+    if stray + helper_hits != n_cont:
+        raise NotFound(f"a test `name[k] == <char>` that does not guard a `continue` ({stray}+{helper_hits} tests, {n_cont} guarded)")
     if set(skips) - {0, -1} or n_cont != sum(len(v) for v in skips.values()) or not skips:
         raise NotFound(f"skip rules `if name[0|-1] == <char>: continue` (found {skips}, {n_cont} guarded continues)")
     if suffix is None:
